@@ -155,4 +155,7 @@ theorem replies_are_read_one_at_a_time (nbl : Option Nat) (replies : List Status
 /-- the capabilities the client keeps (regenerated from `KNOWN_CAPABILITIES`) are the modelled ones, in that order -/
 theorem known_capabilities_are_the_modelled_ones : Generated.knownCapabilities.map sb = Client.knownCaps := by decide
 
+/-- the regular expressions `sievelib/managesieve.py` uses now are the ones the model implements -/
+theorem client_patterns_are_the_modelled_ones : Generated.clientPatterns = Client.patterns := by decide
+
 end C15
